@@ -8,7 +8,14 @@
 (* core) send {admitted, blocked} x {handler ok, error, panic} through     *)
 (* every exported entry point and record ONE ndjson line per request:      *)
 (*   op "req", tr, adapter, ep (entry point), variant (options used),      *)
-(*   cls = [wraps, errsig, fb, outcome]  what the driver arranged,         *)
+(*   cls = [wraps, errsig, fb, outcome, side, flow, sys]  what the driver  *)
+(*            arranged: side = what the entry point is (server / client),  *)
+(*            flow = a flow rule with threshold 0 sits on the resource the *)
+(*            request is meant to hit, sys = "violated" (a system rule is  *)
+(*            loaded and violated while the request is sent: Concurrency 1 *)
+(*            with one inbound entry held by the driver, or InboundQPS 0;  *)
+(*            the driver confirms it with a direct inbound probe entry) |  *)
+(*            "slack" (Concurrency 1000 loaded, not violated) | "none",    *)
 (*   events   the observable events in order: pass / block / complete /    *)
 (*            complete-err from a recording StatSlot on the global slot    *)
 (*            chain (or, for entry points that build a private chain,      *)
@@ -16,12 +23,23 @@
 (*            fallback from the driver's own handler and fallback          *)
 (*            functions, reject when the response is the adapter's         *)
 (*            documented default rejection,                                *)
+(*   btype    block type carried by the BlockError of the block event:     *)
+(*            "flow" | "system" | other | "" (no block seen); src = "node" *)
+(*            (private slot chain, observed through the statistic node):   *)
+(*            the BlockError is not observable, btype is not judged,       *)
 (*   conc     the in-flight gauge of the resource after the request,       *)
+(*   inb      the gauge of the global inbound node after the request,      *)
+(*            relative to its value before the request was sent,           *)
+(*   inbh     the same gauge as the handler saw it (-1: handler not run),  *)
 (*   escaped  a panic left the middleware.                                 *)
 (* Every line is a trace of its own ("total" mode: a mismatch is printed,  *)
 (* validation goes on).  A request honours the contract iff the automaton  *)
-(* accepts its event log, the gauge is back to 0, and no panic left the    *)
-(* middleware that the handler did not raise.                              *)
+(* accepts its event log (which includes the decision where the class      *)
+(* fixes it: server side blocked iff a system rule is violated, client side *)
+(* never), a block carries the block type the contract demands, the gauges *)
+(* are back to 0, the handler of an admitted request saw the inbound gauge *)
+(* raised by InboundShare (1 server side, 0 client side), and no panic     *)
+(* left the middleware that the handler did not raise.                     *)
 (***************************************************************************)
 EXTENDS AdapterContract, Json
 
@@ -29,13 +47,24 @@ Trace == ndJsonDeserialize("trace.ndjson")
 
 VARIABLE l
 tvars == <<l>>
-unused == <<pc, cls, log, conc>>
+unused == <<pc, cls, log, conc, limit, inb, kind>>
 
 Ev == Trace[l]
 
+\* the block type is observable only through the recording slot of the global chain
+BTypeOK(e) == e.src = "node" \/ KindOK(e.events, e.btype, e.cls)
+\* inbound accounting: while the handler of an admitted request runs the request is (server) / is not (client) in flight
+\* on the global inbound node; afterwards the node is back where it was
+InbOK(e) == /\ e.inb = 0
+            /\ (Admitted(e.events) /\ e.inbh # -1) => e.inbh = InboundShare(e.cls)
+
 Why(e) == LET d == Diagnose(e.events, e.cls) IN
           IF d # "" THEN d
+          ELSE IF ~BTypeOK(e) THEN "wrong-block-type"
           ELSE IF e.conc # 0 THEN "gauge-not-back-to-zero"
+          ELSE IF Admitted(e.events) /\ e.inbh # -1 /\ e.inbh # InboundShare(e.cls) THEN
+                   (IF e.cls.side = "server" THEN "server-request-not-counted-as-inbound" ELSE "client-call-counted-as-inbound")
+          ELSE IF e.inb # 0 THEN "inbound-gauge-not-back"
           ELSE IF e.escaped /\ e.cls.outcome # "panic" THEN "panic-escaped-the-adapter"
           ELSE ""
 
@@ -46,11 +75,13 @@ Judge(ok, expected) ==
 TReq ==
     /\ l <= Len(Trace) /\ Ev.op = "req" /\ l' = l + 1
     /\ Judge(/\ Accepts(Ev.events, Ev.cls)
+             /\ BTypeOK(Ev)
              /\ Ev.conc = 0
+             /\ InbOK(Ev)
              /\ Ev.escaped => Ev.cls.outcome = "panic",
              [why |-> Why(Ev), adapter |-> Ev.adapter, ep |-> Ev.ep, variant |-> Ev.variant])
     /\ UNCHANGED unused
 
-TInit == l = 1 /\ pc = << >> /\ cls = << >> /\ log = << >> /\ conc = 0
-TSpec == TInit /\ [][TReq]_<<l, pc, cls, log, conc>>
+TInit == l = 1 /\ pc = << >> /\ cls = << >> /\ log = << >> /\ conc = 0 /\ limit = 0 /\ inb = 0 /\ kind = << >>
+TSpec == TInit /\ [][TReq]_<<l, pc, cls, log, conc, limit, inb, kind>>
 =============================================================================
